@@ -11,10 +11,13 @@ package freelist
 
 //@ type FreeList
 //@   ghost field $F (Array Int Int)
+//@   ghost field $pending Bool
+// cp.$pending - some freed location has not been written to the freelist file yet.
 
 //@ func (cp *FreeList) Put(blk types.Block) (err error)
 //@   abstract gap GAP-3: pool+file contents implement the ghost multiset
-//@   abstract modifies cp.$F
+//@   abstract modifies cp.$F, cp.$pending
+//@   abstract ensures cp.$pending
 //@   abstract ensures cp.$F == old(cp.$F)[keyof(blk) := old(cp.$F)[keyof(blk)] + 1]
 //@   abstract ensures err == nil
 
@@ -35,3 +38,11 @@ package freelist
 
 //@ func (cp *FreeList) Iter() (it *Iterator, err error)  property C16
 //@   unguarded FreeList.file inspection helper used by tests only; not among the operations C16 lists
+
+//@ func (cp *FreeList) Flush() (work types.Work, err error)
+//@   abstract gap GAP-3: pool+file contents implement the ghost multiset
+//@   abstract modifies cp.$pending
+//@   abstract ensures err == nil ==> !cp.$pending
+//@   abstract ensures old(!cp.$pending) ==> !cp.$pending
+//@ func (cp *FreeList) Sync() (err error)
+//@   trusted fsync of the freelist file: no effect on modelled state
